@@ -25,6 +25,9 @@
 //	web     web.Configure on httptest: MaxResponseBytes, QueryTimeout, second request served
 //	        from the cache
 //	rpc     rpc server Query over 127.0.0.1 with a failing source behind rpcserver.DB
+//	remote  Passthrough leader whose partition handlers are real rpc/server HandleRemoteQueries
+//	        streams fed by scripted follower ends (stale handler, EOF / reset / error message /
+//	        silence at any position, several handlers queued per partition)
 //
 // Time: deadlines are real (context deadlines); a fault "sleep" sleeps far beyond the
 // deadline, everything else finishes far before it; a case whose outcome is not reproduced
@@ -408,6 +411,8 @@ func (rn *runner) execute(c *Case) (*Outcome, error) {
 		return rn.runWeb(c)
 	case "rpc":
 		return rn.runRPC(c)
+	case "remote":
+		return rn.runRemote(c)
 	}
 	return nil, fmt.Errorf("unknown mode %q", c.Mode)
 }
@@ -427,7 +432,7 @@ func sameObservation(c *Case, a, b *Outcome) (bool, string) {
 	if a.Err != b.Err {
 		return false, fmt.Sprintf("error class %q vs %q", a.Err, b.Err)
 	}
-	skipStats := c.Mode == "cluster" && a.Err != ""
+	skipStats := (c.Mode == "cluster" || c.Mode == "remote") && a.Err != ""
 	if (a.Stats == nil) != (b.Stats == nil) && !skipStats {
 		return false, "statistics present vs absent"
 	}
@@ -471,6 +476,11 @@ func (rn *runner) check(c *Case, idx uint64, nontrivial bool) error {
 	}
 	res.Hit("mode:" + c.Mode)
 	res.Hit("fault:" + c.Fault.Kind)
+	if ks, ok := c.X["kinds"].([]interface{}); ok {
+		for _, k := range ks {
+			res.Hit(fmt.Sprintf("remote:handler:%v", k))
+		}
+	}
 	switch {
 	case c.Deadline == nil:
 		res.Hit("deadline:none")
@@ -546,7 +556,7 @@ func (rn *runner) check(c *Case, idx uint64, nontrivial bool) error {
 				}
 			}
 			// a partition may or may not have noticed the leader's stop
-			if c.Mode == "cluster" && disagree != "" {
+			if (c.Mode == "cluster" || c.Mode == "remote") && disagree != "" {
 				for _, alt := range rn.clusterAlternatives(c, impl) {
 					if same2, _ := sameObservation(c, impl, alt); same2 {
 						disagree = ""
@@ -664,7 +674,7 @@ func statsStr(s *Stats) string {
 }
 
 func (rn *runner) modelFor(c *Case, impl *Outcome) (*Outcome, error) {
-	if c.Mode == "cluster" {
+	if c.Mode == "cluster" || c.Mode == "remote" {
 		return rn.modelForCluster(c, impl)
 	}
 	if c.Mode == "db" {
@@ -718,7 +728,7 @@ func (Engine) Run(ctx *hk.RunCtx) error {
 	if ctx.Replay != "" {
 		return rn.replay(ctx.Replay)
 	}
-	modes := []string{"core", "plan", "db", "cluster", "web", "rpc"}
+	modes := []string{"core", "plan", "db", "cluster", "web", "rpc", "remote"}
 	if ctx.Mode != "" {
 		modes = []string{ctx.Mode}
 	}
@@ -747,7 +757,7 @@ func (Engine) Run(ctx *hk.RunCtx) error {
 		}
 	}
 	// share of ctx.N per mode when all modes run in one invocation
-	share := map[string]int{"core": 100, "plan": 15, "db": 30, "cluster": 12, "web": 6, "rpc": 6}
+	share := map[string]int{"core": 100, "plan": 15, "db": 30, "cluster": 12, "web": 6, "rpc": 6, "remote": 8}
 	total := 0
 	for _, m := range modes {
 		total += share[m]
@@ -807,6 +817,8 @@ func (rn *runner) generate(mode string, r *hk.Rng) *Case {
 		return rn.genWeb(r)
 	case "rpc":
 		return genRPC(r)
+	case "remote":
+		return genRemote(r)
 	}
 	return nil
 }
